@@ -42,9 +42,12 @@ ASSUMPTIONS = [
     '(scaled by the total weight for truncation values); thresholds are placed away from the error values by a margin',
 ]
 OPEN_STATEMENTS = [
-    'low_rank_reconstruct / one_body_squared_identity / chemist_reorder_identity as operator theorems: not proved in Lean '
-    '(oracle: dense reconstruction, spec.eq).  Proved: the truncation list arithmetic (value == discarded weight, <= threshold, '
-    'minimal rank) for all weight lists.',
+    'low_rank_reconstruct / one_body_squares_identity / chemist_reorder_identity: PROVED as operator theorems in any algebra with '
+    'the CAR over any commutative coefficient ring, with the eigendecomposition contract of numpy.linalg.eigh + reshape as the '
+    'hypothesis h_pqrs = sum_l lambda_l g^l_ps g^l_qr (low_rank_reconstruct, one_body_squares_identity, '
+    'low_rank_truncation_error_is_discarded_squares), plus the truncation list arithmetic (value == discarded weight, <= threshold, '
+    'minimal rank) for all weight lists.  Not proved: that eigh satisfies its contract (numpy is a parameter; oracle: dense '
+    'reconstruction).',
     'active_space_sound (sector matrix elements) and agreement with freeze_orbitals: oracle only.  Proved: index arithmetic of '
     'spinorb_from_spatial (which blocks are filled, bijection with (p,q,r,s,sigma,tau)), trivial-partition identity.',
     'Proved at operator level in any algebra with the CAR: chemist_reorder_identity (summed over all indices with arbitrary '
@@ -56,8 +59,7 @@ OPEN_STATEMENTS = [
     'a commutative ring) applied to the RDMs of any GQ-linear functional on any GQ-algebra with the CAR return its 2-hole / '
     'particle-hole RDM, contracted 1-RDM and expectation value; model_chemist_entries_are_chemist_reordering bridges chemEntry '
     '(spin_basis=False) with its spatial one-body correction.  Not formalised: the spin-orbital form of the bridge (spin_basis=True '
-    'block extraction and corrEntry on 2n spin orbitals; covered by spec.eq), a Model-level low-rank reconstruction statement '
-    '(needs the eigh contract as a hypothesis), N-representability of inputs.',
+    'block extraction and corrEntry on 2n spin orbitals; covered by spec.eq), N-representability of inputs.',
 ]
 
 # ----------------------------------------------------------------------------- dense reference algebra
